@@ -608,7 +608,7 @@ def confirm_hang(entry, text, unreg, first):
             return ("inconclusive", "wall_clock_backstop", "")
         if o.status != "timeout":
             if o.cpu <= T:
-                return ("inconclusive", "over_budget_not_reproduced", f"rerun {k}: {o.cpu:.2f}s <= {T:.2f}s")
+                return ("inconclusive", "over_budget_not_reproduced", o)
             full = o.cpu
         else:
             site, lexpos = (o.site, o.via), o.lexpos
@@ -704,6 +704,15 @@ def judge(h, recipe, raw=False, regression=False):
                        f"{detail}\ninput ({len(text)} chars, entry={entry}): {text[:400]!r}")
         else:
             h.inconclusive(what)
+            if what == "over_budget_not_reproduced":
+                o = detail      # the re-run that completed within budget: judge its outcome instead
+                if o.status == "excluded":
+                    h.exclude(o.type)
+                elif o.status == "crash":
+                    h.mismatch({"check": "exception", "type": o.type, "site": o.site, "via": o.via,
+                                "msg": o.msgclass}, recipe,
+                               f"{o.msg}\ninput ({len(text)} chars, entry={entry}, allow_unregistered={unreg}): "
+                               f"{text[:400]!r}\n{o.tb}")
     return o
 
 
